@@ -22,6 +22,9 @@ type (
 type Mutex struct{ m rs.Mutex }
 
 func (m *Mutex) Lock() {
+	if sched.Dying() {
+		return
+	}
 	sched.Point(sched.KLock, uintptr(unsafe.Pointer(m)))
 	if sched.Active() {
 		// granted means no scheduled thread holds it; if the real mutex is locked anyway it was
@@ -35,6 +38,9 @@ func (m *Mutex) Lock() {
 }
 
 func (m *Mutex) Unlock() {
+	if sched.Dying() {
+		return
+	}
 	sched.Point(sched.KUnlock, uintptr(unsafe.Pointer(m)))
 	m.m.Unlock()
 }
@@ -57,6 +63,9 @@ type rawUnlocker interface{ rawUnlock() }
 type RWMutex struct{ m rs.RWMutex }
 
 func (m *RWMutex) Lock() {
+	if sched.Dying() {
+		return
+	}
 	sched.Point(sched.KLock, uintptr(unsafe.Pointer(m)))
 	if sched.Active() {
 		if !m.m.TryLock() {
@@ -67,10 +76,16 @@ func (m *RWMutex) Lock() {
 	m.m.Lock()
 }
 func (m *RWMutex) Unlock() {
+	if sched.Dying() {
+		return
+	}
 	sched.Point(sched.KUnlock, uintptr(unsafe.Pointer(m)))
 	m.m.Unlock()
 }
 func (m *RWMutex) RLock() {
+	if sched.Dying() {
+		return
+	}
 	sched.Point(sched.KRLock, uintptr(unsafe.Pointer(m)))
 	if sched.Active() {
 		if !m.m.TryRLock() {
@@ -81,6 +96,9 @@ func (m *RWMutex) RLock() {
 	m.m.RLock()
 }
 func (m *RWMutex) RUnlock() {
+	if sched.Dying() {
+		return
+	}
 	sched.Point(sched.KRUnlock, uintptr(unsafe.Pointer(m)))
 	m.m.RUnlock()
 }
@@ -100,6 +118,9 @@ type Cond struct {
 func NewCond(l Locker) *Cond { return &Cond{L: l} }
 
 func (c *Cond) Wait() {
+	if sched.Dying() {
+		return
+	}
 	if sched.Active() {
 		ru, ok := c.L.(rawUnlocker)
 		if !ok {
